@@ -704,8 +704,8 @@ def rule_e4_guard(chk: Check, ix: Index):
         chk.require(not bad, "E7-action-type-hazard", f"{q}:mixed-literal-guard", f"{f.rel}:{guards[0].lineno}",
                     f"`{norm_stmt(guards[0].test)}` in front of `{norm_stmt(adds[0].value)}` decides {bad[:2]}: a str literal next to a "
                     f"bytes literal must be refused in both orders, otherwise the addition raises TypeError")
-    if not n_sites:
-        raise AnalysisError("E4: no guarded literal addition found in subheader.py")
+    # (an addition with no guard at all is the abstract interpreter's finding E4-mixed-literal-add, fed below)
+    chk.units["guarded_literal_additions"] = n_sites
 
 
 def ir_for_w1():
